@@ -1,0 +1,184 @@
+//go:build verif
+
+// Contracts for govc (/verif): C13 "Collective signatures verify exactly when built from valid shares" and the
+// crypto-package half of C09 "A snapshot is final only with a threshold certificate from historical keys"
+// (structural layer: mask handling, index/range/nil safety, the listed error conditions, which key checks which share).
+// The group arithmetic (edwards25519) and the hashes are not interpreted. The mask vocabulary (BitSet, PopUpTo,
+// MaskInRange) and the challenge layer (ChalOK, ChalOf, ScBytes) are declared in zz_contracts_c12_verif.go. Comment-only file.
+
+package crypto
+
+// ───────────── bit facts about XOR (theorems of uint64 arithmetic; band/bxor/shlv are uninterpreted in govc) ─────────────
+
+//@ -- flipping bit i changes the test of bit i and of no other bit
+//@ -- (m ranges over all integers: for the mathematical two's-complement reading of & and ^ the fact holds for every m)
+//@ axiom forall m int, i int, b int :: { (m ^ (1 << i)) & (1 << b) } 0 <= i && i < 64 && 0 <= b && b < 64 ==>
+//@     (BitSet(m ^ (1 << i), b) <==> (b == i ? !BitSet(m, b) : BitSet(m, b)))
+//@ -- the empty mask has no bit set
+//@ axiom forall b int :: { 0 & (1 << b) } (0 & (1 << b)) == 0
+
+// ───────────── uninterpreted verification predicates (T-CRYPTO) ─────────────
+
+//@ -- ShareOK(pub, r, s, chal): the single-signer Schnorr equation s*B == R + chal*pub that (*Key).VerifyWithChallenge tests
+//@ -- for the signature R || s. A function of the BYTE STRINGS (seq codes) of key, commitment and response, and of the
+//@ -- 32-byte encoding of the challenge scalar.
+//@ uninterp ShareOK(pub mathint, r mathint, s mathint, chal [32]byte) bool
+
+//@ -- AggKey(publics, mask): encoding of the sum of the keys publics[b] for the set positions b of mask (what
+//@ -- (*CosiSignature).aggregatePublicKey returns on success). Reads the pointer block of publics and the key bytes.
+//@ uninterp AggKey(publics []*Key, mask uint64) Key reads byte, publics[..]
+
+//@ -- DecodableSeq(s): the 32-byte string s decodes to a non-identity prime-order point in canonical encoding: what decodePoint
+//@ -- accepts for a key (ValidPointBytes: zz_contracts_c32_verif.go, over the C32 group vocabulary of trusted/c32.spec)
+//@ spec DecodableSeq(s mathint) bool = ValidPointBytes(s)
+
+//@ -- decodePoint: VERIFIED contract in zz_contracts_c32_verif.go (err == nil <==> len(src) == 32 && ValidPointBytes(seq(src));
+//@ -- success returns a fresh point equal to PointOf(seq(src)); its decode cache is assumed coherent there).
+
+//@ -- VerifyWithChallenge: undecodable key / R, non-canonical s are reported as false; otherwise the group equation.
+//@ assume func (publicKey *Key) VerifyWithChallenge
+//@   requires publicKey != nil && a != nil
+//@   modifies nothing
+//@   ensures result <==> ShareOK(seq(*publicKey), seqpart(sig, 0, 32), seqpart(sig, 32, 32), ScBytes(*a))
+
+// ───────────── masks ─────────────
+
+//@ func (c *CosiSignature) mark
+//@   property C13
+//@   requires c != nil
+//@   modifies c.Mask
+//@   ensures [reject] (i < 0 || i >= 64) ==> result != nil && c.Mask == old(c.Mask)
+//@   ensures [flip] 0 <= i && i < 64 ==> result == nil && c.Mask == (old(c.Mask) ^ (1 << i))
+
+//@ func (c *CosiSignature) Keys
+//@   property C13, C09
+//@   modifies nothing
+//@   requires c != nil
+//@   ensures [fresh] fresh(result)
+//@   ensures [count] len(result) == PopUpTo(c.Mask, 64) && len(result) <= 64
+//@   ensures [sound] forall j int :: 0 <= j && j < len(result) ==> 0 <= result[j] && result[j] < 64 && BitSet(c.Mask, result[j])
+//@   ensures [sorted] forall j int :: 0 < j && j < len(result) ==> result[j-1] < result[j]
+//@   ensures [complete] forall b int :: 0 <= b && b < 64 && BitSet(c.Mask, b) ==> (exists j int :: 0 <= j && j < len(result) && result[j] == b)
+//@   loop 0 invariant i < 64 && len(keys) <= i && len(keys) == PopUpTo(c.Mask, i) && fresh(keys)
+//@   loop 0 invariant forall j int :: 0 <= j && j < len(keys) ==> 0 <= keys[j] && keys[j] < i && BitSet(c.Mask, keys[j])
+//@   loop 0 invariant forall j int :: 0 < j && j < len(keys) ==> keys[j-1] < keys[j]
+//@   loop 0 invariant forall b int :: 0 <= b && b < i && BitSet(c.Mask, b) ==> (exists j int :: 0 <= j && j < len(keys) && keys[j] == b)
+
+//@ func (c *CosiSignature) ThresholdVerify
+//@   property C13, C09
+//@   modifies nothing
+//@   requires c != nil
+//@   ensures result <==> PopUpTo(c.Mask, 64) >= threshold
+
+//@ func (c *CosiSignature) aggregatePublicKey
+//@   property C13, C09
+//@   modifies nothing
+//@   requires c != nil
+//@   ensures [ok] err == nil ==> result0 != nil && fresh(result0) && MaskInRange(c.Mask, publics) && PopUpTo(c.Mask, 64) > 0
+//@   ensures [fail] err != nil ==> result0 == nil
+//@ -- T-CRYPTO: the returned key is the aggregate of exactly the masked keys (definition of AggKey; not checkable, the sum is not interpreted)
+//@   assumes err == nil ==> *result0 == AggKey(publics, c.Mask)
+
+// ───────────── commitments, responses, verification ─────────────
+
+//@ -- CosiAggregateCommitment: success means EVERY entry of randoms (the map range model visits every key exactly once) has an
+//@ -- index in [0,64), a non-nil and decodable commitment, is recorded under the same index, and the mask has exactly the
+//@ -- bits of the indexes of randoms. randoms itself is not modified.
+//@ func CosiAggregateCommitment
+//@   property C13
+//@   uses entryclosure
+//@   modifies nothing
+//@   ensures [ok] err == nil ==> result0 != nil && fresh(result0) && len(randoms) > 0 && result0.commitments != nil && fresh(result0.commitments)
+//@   ensures [all] err == nil ==> (forall i int :: has(randoms, i) ==> 0 <= i && i < 64 && randoms[i] != nil && old(DecodableSeq(seq(*randoms[i]))) &&
+//@       has(result0.commitments, i) && result0.commitments[i] == randoms[i] && BitSet(result0.Mask, i))
+//@   ensures [only] err == nil ==> (forall i int :: has(result0.commitments, i) ==> has(randoms, i))
+//@   ensures [mask] err == nil ==> (forall b int :: 0 <= b && b < 64 && BitSet(result0.Mask, b) ==> has(randoms, b))
+//@   ensures [fail] err != nil ==> result0 == nil
+//@   ensures [frame] len(randoms) == old(len(randoms)) && (forall i int :: has(randoms, i) == old(has(randoms, i)) && randoms[i] == old(randoms[i]))
+//@   loop 0 invariant fresh(P)
+//@   loop 0 invariant P != nil && cosi != nil && fresh(cosi) && cosi.commitments != nil && fresh(cosi.commitments)
+//@   loop 0 invariant len(randoms) == old(len(randoms)) && (forall i int :: has(randoms, i) == old(has(randoms, i)) && randoms[i] == old(randoms[i]))
+//@   loop 0 invariant [vis] forall i int :: visited(i) ==> 0 <= i && i < 64 && has(randoms, i) && randoms[i] != nil && old(DecodableSeq(seq(*randoms[i]))) &&
+//@       has(cosi.commitments, i) && cosi.commitments[i] == randoms[i]
+//@   loop 0 invariant [only] forall i int :: has(cosi.commitments, i) ==> visited(i)
+//@   loop 0 invariant [mask] forall b int :: 0 <= b && b < 64 ==> (BitSet(cosi.Mask, b) <==> visited(b))
+
+//@ -- VerifyResponse: success means the response is non-nil, the signer is a set mask position inside the key vector with a
+//@ -- recorded commitment, the challenge could be computed, and the share passed the single-signer equation against THAT
+//@ -- signer's key and commitment and the challenge of (c, publics, message).
+//@ func (c *CosiSignature) VerifyResponse
+//@   property C13
+//@   uses entryclosure, blockframe
+//@   modifies nothing
+//@   requires c != nil
+//@   ensures [ok] result == nil ==> s != nil && 0 <= signer && signer < 64 && BitSet(c.Mask, signer) && signer < len(publics) &&
+//@       publics[signer] != nil && has(c.commitments, signer) && c.commitments[signer] != nil && old(ChalOK(c, publics, message)) &&
+//@       MaskInRange(c.Mask, publics)
+//@   ensures [share] result == nil ==> old(ShareOK(seq(*publics[signer]), seq(*c.commitments[signer]), seq(*s), ChalOf(c, publics, message)))
+//@   loop 0 invariant R != nil ==> 0 <= signer && signer < 64 && BitSet(c.Mask, signer) && signer < len(publics) && a == publics[signer] &&
+//@       has(c.commitments, signer) && R == c.commitments[signer]
+
+//@ -- FullVerify (C09, C13): success means a positive threshold that the mask size reaches, every set mask position inside the
+//@ -- key vector on a non-nil key, and the signature verified (T-CRYPTO predicate SigOK of zz_contracts_c30_verif.go) over
+//@ -- the message under the aggregate of exactly the masked keys.
+//@ func (c *CosiSignature) FullVerify
+//@   property C09, C13
+//@   modifies nothing
+//@   requires c != nil
+//@   ensures [ok] result == nil ==> threshold > 0 && PopUpTo(c.Mask, 64) >= threshold && MaskInRange(c.Mask, publics)
+//@   ensures [sig] result == nil ==> SigOK(seq(AggKey(publics, c.Mask)), seq(message), seq(c.Signature))
+//@   ensures [frame] c.Mask == old(c.Mask) && c.Signature == old(c.Signature)
+
+//@ -- ASSUMED counting fact (pigeonhole; finite-set cardinality is outside govc's map model): a map that contains every
+//@ -- set position of a mask and has exactly as many entries as the mask has set positions contains nothing else.
+//@ -- Needed for the index/nil safety of the loop over `responses` in AggregateResponse: the code checks the COUNT of
+//@ -- responses against the mask size and the presence of every masked index, not the indexes of the responses themselves.
+//@ axiom forall m map[int]*[32]byte, mask int :: { len(m), PopUpTo(mask, 64) }
+//@     len(m) == PopUpTo(mask, 64) && (forall b int :: 0 <= b && b < 64 && BitSet(mask, b) ==> has(m, b)) ==>
+//@     (forall k int :: has(m, k) ==> 0 <= k && k < 64 && BitSet(mask, k))
+
+//@ -- AggregateResponse: success means the mask selects non-nil keys inside the key vector, the responses are EXACTLY the
+//@ -- masked indexes (one non-nil response per set bit, no other entry), every response has a recorded commitment and is a
+//@ -- canonical scalar, the challenge could be computed, and in strict mode EVERY response (map range model: every key is
+//@ -- visited) passed the single-signer equation against its OWN signer's key and commitment. Failure leaves c unchanged.
+//@ func (c *CosiSignature) AggregateResponse
+//@   property C13
+//@   uses entryclosure, blockframe
+//@   modifies c.Signature
+//@   requires c != nil
+//@   ensures [ok] result == nil ==> MaskInRange(c.Mask, publics) && len(responses) == PopUpTo(c.Mask, 64) && old(ChalOK(c, publics, message)) &&
+//@       (forall b int :: 0 <= b && b < 64 && BitSet(c.Mask, b) ==> has(responses, b) && responses[b] != nil)
+//@   ensures [only] result == nil ==> (forall k int :: has(responses, k) ==> 0 <= k && k < 64 && BitSet(c.Mask, k) &&
+//@       has(c.commitments, k) && c.commitments[k] != nil && old(CanonicalScalar(seq(*responses[k]))))
+//@   ensures [strict] result == nil && strict ==> (forall k int :: has(responses, k) ==>
+//@       old(ShareOK(seq(*publics[k]), seq(*c.commitments[k]), seq(*responses[k]), ChalOf(c, publics, message))))
+//@   ensures [fail] result != nil ==> c.Signature == old(c.Signature)
+//@   ensures [frame] c.Mask == old(c.Mask) && (forall j int :: 0 <= j && j < 32 ==> c.Signature[j] == old(c.Signature[j]))
+//@ -- loop numbering: govc orders loops by the smallest source position inside the loop; the phi of S (declared on the first
+//@ -- line of the function) belongs to the map loop, so the map loop over `responses` is loop 0 and the loop over c.Keys() is loop 1.
+//@   loop 1 invariant len(keys) == rangeindex + 1 && (isnil(keys) || fresh(keys)) && SameKeys(publics) && c.Signature == old(c.Signature) && c.Mask == old(c.Mask)
+//@   loop 1 invariant forall j int :: 0 <= j && j <= rangeindex ==> rangeexpr[j] < len(publics) && has(responses, rangeexpr[j]) && responses[rangeexpr[j]] != nil
+//@   loop 0 invariant S != nil && fresh(S) && c.Signature == old(c.Signature) && c.Mask == old(c.Mask) && SameKeys(publics)
+//@   loop 0 invariant [chal] challenge != nil && fresh(challenge) && S != challenge && ScBytes(*challenge) == old(ChalOf(c, publics, message))
+//@   loop 0 invariant [bits] forall b int :: 0 <= b && b < 64 && BitSet(c.Mask, b) ==> has(responses, b) && responses[b] != nil && b < len(publics) && publics[b] != nil
+//@   loop 0 invariant [count] len(responses) == PopUpTo(c.Mask, 64)
+//@   loop 0 invariant [onlybits] forall k int :: has(responses, k) ==> 0 <= k && k < 64 && BitSet(c.Mask, k)
+//@   loop 0 invariant [vis] forall k int :: visited(k) ==> has(responses, k) && has(c.commitments, k) && c.commitments[k] != nil &&
+//@       old(CanonicalScalar(seq(*responses[k]))) &&
+//@       (strict ==> old(ShareOK(seq(*publics[k]), seq(*c.commitments[k]), seq(*responses[k]), ChalOf(c, publics, message))))
+
+// ───────────── completeness algebra (BOUNDED: at most 3 signers; exponent arithmetic, not the code) ─────────────
+
+//@ -- In the prime-order group of order l every point is e*B for an exponent e, so the verification equation S*B == R + c*A is
+//@ -- the congruence S == r + c*a (mod l) between exponents. Representatives: share i is s_i = c*a_i + r_i - k_i*l for some
+//@ -- integer k_i (Scalar.MultiplyAdd reduces mod l), the aggregate response is S = s_1 + .. + s_n (mod l), the aggregate key
+//@ -- and commitment have exponents a = a_1 + .. + a_n and r = r_1 + .. + r_n. The lemma states S - (r + c*a) is a multiple of
+//@ -- l for n = 1, 2, 3. It is a statement about integers, NOT about crypto/cosi.go: that the code computes these sums is the
+//@ -- uninterpreted part (T-GROUP). The n-signer induction over map-ordered sums is not attempted.
+//@ lemma CosiCompleteness3(c, l, a1, a2, a3, r1, r2, r3, s1, s2, s3, k1, k2, k3 mathint)
+//@   property C13
+//@   requires l > 0
+//@   requires s1 == c * a1 + r1 - k1 * l && s2 == c * a2 + r2 - k2 * l && s3 == c * a3 + r3 - k3 * l
+//@   ensures [n1] s1 - (r1 + c * a1) == (0 - k1) * l
+//@   ensures [n2] (s1 + s2) - ((r1 + r2) + c * (a1 + a2)) == (0 - (k1 + k2)) * l
+//@   ensures [n3] (s1 + s2 + s3) - ((r1 + r2 + r3) + c * (a1 + a2 + a3)) == (0 - (k1 + k2 + k3)) * l
